@@ -502,23 +502,26 @@ func (ex *Exec) applyContract(spec *FuncSpec, info calleeInfo, c *ssa.CallCommon
 		nr := ex.D.Fresh("$nextref", SInt)
 		ex.assume(Ge(nr, ex.getHeap(pre, "$nextref", SInt)))
 		ex.setHeap(post, "$nextref", nr)
-		// objects allocated by the callee get their type tags; existing tags stay
-		if _, touched := ex.heapSort["$typeof"]; touched {
+		// objects allocated by the callee get their type tags; existing tags stay.
+		// Unallocated references carry tag 0, so a callee that allocates no
+		// goirc struct object (trusted code, or an empty may-allocate set)
+		// leaves $typeof as it is.
+		var as *allocSet
+		if !spec.Trusted {
+			if fn := c.StaticCallee(); fn != nil && !c.IsInvoke() {
+				as = ex.V.mayAlloc(fn)
+			}
+		}
+		noTags := spec.Trusted || (as != nil && !as.unknown && len(as.tags) == 0)
+		if _, touched := ex.heapSort["$typeof"]; touched && !noTags {
 			pt := ex.getHeap(pre, "$typeof", ArrS(SInt, SInt))
 			nt := ex.D.Fresh("$typeof", ArrS(SInt, SInt))
 			r := BV("r!ty", SInt)
 			ex.assume(Forall([]BVar{{"r!ty", SInt}}, Imp(Lt(r, ex.getHeap(pre, "$nextref", SInt)), Eq(Select(nt, r), Select(pt, r)))))
-			if spec.Trusted {
-				// code outside goirc never allocates objects of goirc's struct types
-				ex.assume(Forall([]BVar{{"r!ty", SInt}}, Imp(Ge(r, ex.getHeap(pre, "$nextref", SInt)), Eq(Select(nt, r), IntLit(0)))))
-			} else {
-				ex.assume(Forall([]BVar{{"r!ty", SInt}}, Imp(Ge(r, nr), Eq(Select(nt, r), IntLit(0)))))
-				// new objects only get tags of struct types the callee may allocate
-				if fn := c.StaticCallee(); fn != nil && !c.IsInvoke() {
-					if as := ex.V.mayAlloc(fn); !as.unknown {
-						ex.assume(Forall([]BVar{{"r!ty", SInt}}, Imp(Ge(r, ex.getHeap(pre, "$nextref", SInt)), as.tagIn(Select(nt, r)))))
-					}
-				}
+			ex.assume(Forall([]BVar{{"r!ty", SInt}}, Imp(Ge(r, nr), Eq(Select(nt, r), IntLit(0)))))
+			// new objects only get tags of struct types the callee may allocate
+			if as != nil && !as.unknown {
+				ex.assume(Forall([]BVar{{"r!ty", SInt}}, Imp(Ge(r, ex.getHeap(pre, "$nextref", SInt)), as.tagIn(Select(nt, r)))))
 			}
 			ex.setHeap(post, "$typeof", nt)
 		}
@@ -1014,7 +1017,9 @@ func (ex *Exec) callBuiltin(b *ssa.Builtin, c *ssa.CallCommon, args []Val, pos t
 func (ex *Exec) card(dom *Term, m *Term) *Term {
 	ex.needCard = true
 	r := ex.D.Fn("card", SInt, dom)
-	ex.assume(Ge(r, IntLit(0)))
+	if isGroundTerm(r) {
+		ex.assume(Ge(r, IntLit(0)))
+	}
 	return r
 }
 
